@@ -62,7 +62,7 @@ pub fn gen(rng: &mut Rng, tiny: bool, focus: &str) -> CCfg {
     let perturb = if gated { rng.below(2) as u8 } else { 2 };
     let grace_us = if tiny { 0 } else { *rng.pick(&[0u64, 200, 1000, 3000]) };
     let no_drain = !c05 && rng.chance(1, 3);
-    let long_stall_ms = if cfg!(miri) { 40_000 } else if !tiny && variant == 0 && rng.chance(1, 800) { *rng.pick(&[1100u64, 2300, 3600]) } else { 0 };
+    let long_stall_ms = if cfg!(miri) { 40_000 } else if !tiny && variant == 0 && focus == "C05" && rng.chance(1, 100) { 1100 } else if !tiny && variant == 0 && rng.chance(1, 800) { *rng.pick(&[1100u64, 2300, 3600]) } else { 0 };
     let close_parked = variant == 2 && rng.chance(1, 4);
     let followups = (variant == 1 || (variant == 3 && !no_drain)) && rng.chance(1, 2);
     CCfg {
@@ -106,6 +106,9 @@ const MARK_GIVEUP: u32 = 900;
 /// x = 1: every follow-up action issued so far was taken or counted as dropped, nothing queued, reducer idle
 const MARK_FOLLOWUPS: u32 = 6;
 const FOLLOWUP_SCRIPT: u32 = 3;
+/// x = microseconds between "the reducer is parked in the next action" and the return of the dispatch this
+/// made room for, for callers that had been blocked through a long stall
+const MARK_RESUME_US: u32 = 17;
 
 pub fn execute(c: &CCfg, seed: u64) -> W {
     let gated = c.variant == 0 || c.variant == 2;
@@ -161,6 +164,8 @@ pub fn execute(c: &CCfg, seed: u64) -> W {
                 // stepper: one token at a time; before each token wait for the exact quiescent point
                 let mut taken = 0u64;
                 let mut stalled = false;
+                let mut stalls = 0u32;
+                let mut last_stall_at = 0u64;
                 loop {
                     // reducer parked inside action number taken+1
                     if !gate.wait_parked(1) {
@@ -169,14 +174,24 @@ pub fn execute(c: &CCfg, seed: u64) -> W {
                     taken += 1;
                     // every dispatch that can return has returned: returned == min(total, taken + cap)
                     let expect = total.min(taken + c.cap as u64);
+                    let t_parked = std::time::Instant::now();
                     if !returned.wait_at_least(expect, 20) {
                         give_up(2);
+                    }
+                    if stalled && expect > total.min(taken - 1 + c.cap as u64) {
+                        // a caller that was blocked while the reducer stood still has been let in by this
+                        // step: how long after room was made (the reducer is already parked in the next
+                        // action) did its dispatch return?
+                        w.mark(MARK_RESUME_US, t_parked.elapsed().as_micros() as u64);
                     }
                     // grace: lets an over-admitting queue show itself (detection power only)
                     if c.grace_us > 0 {
                         std::thread::sleep(std::time::Duration::from_micros(c.grace_us));
                     }
-                    if c.long_stall_ms > 0 && !stalled && expect < total {
+                    // (natively a second stall two steps later, so that two callers sit one out each)
+                    if c.long_stall_ms > 0 && expect < total && (!stalled || (!cfg!(miri) && stalls < 2 && taken >= last_stall_at + 2)) {
+                        stalls += 1;
+                        last_stall_at = taken;
                         // callers are blocked on a full queue right now: keep the reducer parked
                         stalled = true;
                         std::thread::sleep(std::time::Duration::from_millis(c.long_stall_ms));
@@ -373,6 +388,15 @@ pub fn c05(h: &Hist, s: u8, v: &mut Verdicts) {
             _ => {}
         }
     }
+    // "resumes as soon as the reducer makes room": callers that sat out a long stall. Wall-clock, so only a
+    // repeated, gross delay counts (natively; two or more resumptions each >= 100 ms after room was made)
+    let slow: Vec<u64> = h.evs.iter().filter(|e| e.k == K::Mark && e.idx == MARK_RESUME_US).map(|e| e.x).collect();
+    if !cfg!(miri) && slow.iter().filter(|us| **us >= 100_000).count() >= 2 {
+        v.fail("C05", format!("store {} (BlockOnFull, capacity {}): callers blocked on the full queue through a long stall resumed {:?} microseconds after the reducer had made room for them (it was already parked in the next action): they do not resume as soon as there is room", s, cfg.cap, slow));
+    }
+    v.count("c05.resumptions_after_long_stall_timed", slow.len() as u64);
+    v.maxc("c05.max_resume_us_after_long_stall", slow.iter().copied().max().unwrap_or(0));
+    v.count("c05.resumptions_over_100ms", slow.iter().filter(|us| **us >= 100_000).count() as u64);
     // losslessness: every accepted action reduced exactly once (C01 fold over the same history)
     let f = fold(h, s, v, false);
     for (a, d) in &h.disp {
